@@ -921,6 +921,72 @@ func runC15(res *hx.Result, rng *hx.Rng, tier string, outdir string) {
 	// ---- concurrent histories (child process) ----
 	runHistories(res, cf, rng, outdir, nHist, unsync)
 	cf.Flush()
+	if tier == "thorough" {
+		raceDetectorRun(res, outdir, repo, unsync)
+	}
+}
+
+// raceDetectorRun (thorough): the stress child rebuilt with the Go race detector.
+func raceDetectorRun(res *hx.Result, outdir, repo string, unsync bool) {
+	root := os.Getenv("VERIF_ROOT")
+	if root == "" {
+		res.Notes = append(res.Notes, "race detector run skipped: VERIF_ROOT not set")
+		return
+	}
+	mod := filepath.Join(root, "go")
+	if rp, err := filepath.EvalSymlinks(repo); err == nil && rp != "/repo" {
+		mod = filepath.Join(root, "_build", "go-alt")
+	}
+	bin := filepath.Join(outdir, "qv-race")
+	build := exec.Command("go", "build", "-race", "-tags", "verif", "-o", bin, "./cmd/qv")
+	build.Dir = mod
+	build.Env = append(os.Environ(), "CGO_ENABLED=1")
+	done := make(chan struct{})
+	var out []byte
+	var err error
+	go func() { out, err = build.CombinedOutput(); close(done) }()
+	select {
+	case <-done:
+	case <-time.After(15 * time.Minute):
+		if build.Process != nil {
+			build.Process.Kill()
+		}
+		<-done
+		err = fmt.Errorf("timeout")
+	}
+	if err != nil {
+		res.Notes = append(res.Notes, "race detector run skipped: go build -race failed: "+err.Error()+" "+tail(string(out), 300))
+		return
+	}
+	defer os.Remove(bin)
+	o, rerr := runChildBin(bin, "C15-child-race", outdir, map[string]string{"C15_RACE_MS": "3000", "GORACE": "halt_on_error=1"}, 3*time.Minute)
+	if !strings.Contains(o, "WARNING: DATA RACE") {
+		if rerr != nil && !strings.Contains(o, "fatal error:") {
+			res.Notes = append(res.Notes, "race detector child failed without a report: "+tail(o, 300))
+			return
+		}
+		if strings.Contains(o, "fatal error:") {
+			return // already reported by the plain stress run
+		}
+		res.Notes = append(res.Notes, "go build -race stress (3 remote loops + 2 NewService/Terminate loops, paired registrations): no data race reported")
+		res.Dist("race-detector-clean")
+		return
+	}
+	// the two access sites of the first report
+	var sites []string
+	lines := strings.Split(o, "\n")
+	for i, l := range lines {
+		if strings.Contains(l, "directory.(*serviceDirectory)") && i+1 < len(lines) && len(sites) < 2 {
+			sites = append(sites, strings.TrimSpace(l)+" "+strings.TrimSpace(lines[i+1]))
+		}
+	}
+	d := "go build -race, 3 remote clients looping register/ready/services/service/unregister + 2 goroutines looping Server.NewService/Terminate: WARNING: DATA RACE between " + strings.Join(sites, " and ")
+	res.Dist("race-detector-report")
+	if unsync {
+		res.FailKnown("data-race", d, "unsync_local")
+	} else {
+		res.Fail("data-race", d)
+	}
 }
 
 func clip(s string, n int) string {
@@ -1022,9 +1088,13 @@ func hashMod(s string, m uint32) uint32 {
 // ---------- child processes ----------
 
 func runChild(prop, outdir string, env map[string]string, deadline time.Duration) (string, error) {
+	return runChildBin(os.Args[0], prop, outdir, env, deadline)
+}
+
+func runChildBin(bin, prop, outdir string, env map[string]string, deadline time.Duration) (string, error) {
 	dir := filepath.Join(outdir, "child-"+prop)
 	os.MkdirAll(dir, 0o755)
-	cmd := exec.Command(os.Args[0], "--out", dir, prop)
+	cmd := exec.Command(bin, "--out", dir, prop)
 	cmd.Env = os.Environ()
 	for k, v := range env {
 		cmd.Env = append(cmd.Env, k+"="+v)
